@@ -324,17 +324,18 @@ func c42Break(rng *kit.RNG, d *c42DAG, allowLater bool) int {
 
 // c42Loader implements restic.Loader over the DAG's store.
 type c42Loader struct {
-	d      *c42DAG
-	conn   uint
-	delay  int
-	mu     sync.Mutex
-	rng    *kit.RNG
-	loads  map[restic.ID]int
-	huge   map[restic.ID]bool
-	events *atomic.Int64
-	total  int
-	limit  int    // more loads than this = runaway traversal (re-visiting shared sub-trees)
-	cancel func() // called once when the limit is exceeded
+	d        *c42DAG
+	conn     uint
+	delay    int
+	mu       sync.Mutex
+	rng      *kit.RNG
+	loads    map[restic.ID]int
+	huge     map[restic.ID]bool
+	slowHuge bool
+	events   *atomic.Int64
+	total    int
+	limit    int    // more loads than this = runaway traversal (re-visiting shared sub-trees)
+	cancel   func() // called once when the limit is exceeded
 }
 
 func (l *c42Loader) Connections() uint { return l.conn }
@@ -364,6 +365,9 @@ func (l *c42Loader) LoadBlob(ctx context.Context, bh restic.BlobHandle, _ []byte
 	v := 0
 	if l.delay > 0 {
 		v = l.rng.Intn(l.delay + 2)
+	}
+	if l.slowHuge && l.huge[bh.ID] {
+		v = 300 // keep the huge-tree worker busy
 	}
 	l.mu.Unlock()
 	switch {
@@ -563,7 +567,15 @@ func c42Run(t *testing.T, rec *kit.Rec, rng *kit.RNG, d *c42DAG, c *c42Case) {
 	var events atomic.Int64
 	ld := &c42Loader{d: d, conn: c.Conn, delay: c.Delay, rng: rec.RNG("delay", c.Idx), loads: map[restic.ID]int{}, huge: map[restic.ID]bool{}, events: &events}
 	if c.Class != "huge-50MiB" && rng.Chance(1, 3) {
-		for k := rng.Range(1, 12); k > 0; k-- {
+		k := rng.Range(1, 12)
+		if rng.Chance(1, 2) && len(d.trees) > 30 {
+			// many trees reported as huge while the single huge-tree worker is kept busy by slow
+			// loads: its hand-over channel fills up and the dispatcher has to hold trees back
+			// (seeded change C42-1)
+			k = rng.Range(20, len(d.trees)*2/3)
+			ld.slowHuge = true
+		}
+		for ; k > 0; k-- {
 			ld.huge[d.trees[rng.Intn(len(d.trees))].id] = true
 		}
 		c.Huge = len(ld.huge)
